@@ -11,7 +11,7 @@ class NetCheck(Check):
     own = "history"
 
     def runs(self, tier):
-        return 6000 if tier == "quick" else 400000
+        return 6000 if tier == "quick" else 150000
 
     def prepare(self, ctx):
         self.startup = self.startup_probe(ctx)
